@@ -6,7 +6,7 @@ from .lib import cbool, coq_mismatches
 LEVEL = "proof"
 META = {
     "category": "proof",
-    "text": "Coq theorems over a branch-by-branch model of syntax.Quote, unquote and the scanner's string-literal loop, with Go's UTF-8 codec defined in Coq and proved to round-trip (and to accept only canonical encodings of scalar values): for ALL well-formed UTF-8 strings unquote(Quote(s,false)) = s and for ALL byte strings unquote(Quote(b,true)) = b (induction over the string with the UTF-8 decoder in the loop; strconv.IsPrint is a parameter constrained by one hypothesis that the harness checks against the real function over every code point); the scanner reads Quote(s,b) followed by any continuation as exactly one STRING/BYTES token with value s; Quote(s,b) denotes s according to an independent single-pass literal reader written from the language specification, and the scanner+unquote model (r/b/rb prefix dispatch, single- and triple-quoted scan loops with CR/CRLF handling and backslash skipping, then unquote with every escape form and every error exit) returns the same token extent, value, string/bytes kind and the same accept/reject verdict as that reader on EVERY well-formed UTF-8 source text of any length (scan_agrees_with_spec, by induction over the source; the hypothesis is necessary: on ill-formed UTF-8 the scanner substitutes U+FFFD), cross-checked by complete enumeration in Coq of the 8.1 million source texts of length <= 6 over the 14 syntax-relevant characters; the value printer (None/bool/int/float/string/bytes/list/tuple/dict, one-element tuple comma, cycle marker) is modelled and every printed value of the universe, nested arbitrarily, reads back as the same value with the same types (float leaf = named strconv oracle); printing terminates on every cyclic heap and prints shared (acyclic) substructure in full. The models are hand-written and tied to /repo on every run: the real Quote, unquote, scanner, repr, str and Eval run on generated strings / literals / values and the observations are evaluated inside Coq against the model (correspondence) and against the specification reader (oracle); the law Eval(repr(v)) == v (same type at every level, floats bit-identical) and unquote(Quote(s)) == s are also checked directly on the implementation (every code point and every byte pair in the thorough tier).",
+    "text": "Coq theorems over a branch-by-branch model of syntax.Quote, unquote and the scanner's string-literal loop, with Go's UTF-8 codec defined in Coq and proved to round-trip (and to accept only canonical encodings of scalar values): for ALL well-formed UTF-8 strings unquote(Quote(s,false)) = s and for ALL byte strings unquote(Quote(b,true)) = b (induction over the string with the UTF-8 decoder in the loop; strconv.IsPrint is a parameter constrained by one hypothesis that the harness checks against the real function over every code point); the scanner reads Quote(s,b) followed by any continuation as exactly one STRING/BYTES token with value s; Quote(s,b) denotes s according to an independent single-pass literal reader written from the language specification, and the scanner+unquote model (r/b/rb prefix dispatch, single- and triple-quoted scan loops with CR/CRLF handling and backslash skipping, then unquote with every escape form and every error exit) returns the same token extent, value, string/bytes kind and the same accept/reject verdict as that reader on EVERY well-formed UTF-8 source text of any length (scan_agrees_with_spec, by induction over the source; the hypothesis is necessary for the value only: on ill-formed UTF-8 the scanner substitutes U+FFFD, and scan_accepts_same_extent proves for EVERY byte string whatsoever that both reject or both accept with the same kind and the same remaining input), cross-checked by complete enumeration in Coq of the 8.1 million source texts of length <= 6 over the 14 syntax-relevant characters; the value printer (None/bool/int/float/string/bytes/list/tuple/dict, one-element tuple comma, cycle marker) is modelled and every printed value of the universe, nested arbitrarily, reads back as the same value with the same types (float leaf = named strconv oracle); printing terminates on every cyclic heap and prints shared (acyclic) substructure in full. The models are hand-written and tied to /repo on every run: the real Quote, unquote, scanner, repr, str and Eval run on generated strings / literals / values and the observations are evaluated inside Coq against the model (correspondence) and against the specification reader (oracle); the law Eval(repr(v)) == v (same type at every level, floats bit-identical) and unquote(Quote(s)) == s are also checked directly on the implementation (every code point and every byte pair in the thorough tier).",
     "note": "Trusted: Coq kernel + vm_compute; the correspondence harness; strconv.IsPrint (parameter + checked hypothesis), strconv shortest float formatting / ParseFloat and big.Int decimal conversion as named oracles; unicode/utf8 is defined in Coq and cross-checked; the parser beyond literals/displays/unary minus is not modelled (C14).",
     "technique": "Coq proof over executable model + differential correspondence (vm_compute) + Spec.v oracle + direct round-trip on the implementation",
 }
